@@ -96,7 +96,12 @@ pub fn check(v: &View, vd: &mut Verdict) {
                     // the closed mailbox is "ready" in every round of the fair select from the last drop on
                     // (once no in-flight operation holds a temporary): 48 items in a row mean it was not looked at
                     let from = v.ops.iter().filter(|p| p.actor == Some(a) && p.begin < z).map(|p| p.end_or_max()).max().unwrap_or(0).max(z);
-                    if from != u64::MAX {
+                    // (the broker holds upgraded senders while it fans a publication out, a timer whose waiting
+                    // send is blocked holds one too: then the mailbox is not closed yet)
+                    let waiting_timer = matches!(v.rt[a].mailbox, Mailbox::Bounded(_))
+                        && v.hist.iter().any(|e| matches!(&e.kind, EvKind::TimerReg { actor, kind: TimerKind::IntervalWith | TimerKind::DelayedSend, .. } if *actor == a));
+                    let subscribed = v.ops.iter().any(|p| matches!(p.what, OpWhat::Subscribe(_)) && p.actor == Some(a));
+                    if from != u64::MAX && !waiting_timer && !subscribed {
                         let mut mine: Vec<&InvRec> = v.invs.iter().filter(|i| i.actor == a && i.enter > from).collect();
                         mine.sort_by_key(|i| i.enter);
                         let (mut run, mut worst) = (0usize, 0usize);
